@@ -36,21 +36,24 @@ Proof. destruct a; simpl; auto using triple_eqb_refl. Qed.
 
 Section Proofs.
   Variable H : Z -> Z -> Z -> hashv.
+  Variable ccinfo_of : Z -> Z.
   Variable cc_ok : built -> bool.
   Variable pol : policy.
   Variable tps : Z.
   Hypothesis Hinj : H_inj H.
+  (* every change of what the C compiler reads besides the C file shows in ccinfo (no header-only edits) *)
+  Hypothesis Hvis : forall a b, ccinfo_of a = ccinfo_of b -> a = b.
   Hypothesis tps_pos : 0 < tps.
   Hypothesis Hhash : p_head_hash pol = true.
   Hypothesis Hsize : p_size_chk pol = true.
 
   Notation sec := (sec tps).
-  Notation mk_text := (mk_text H pol).
-  Notation compile_code := (compile_code H pol tps).
+  Notation mk_text := (mk_text H ccinfo_of pol).
+  Notation compile_code := (compile_code H ccinfo_of pol tps).
   Notation compile_binary := (compile_binary cc_ok pol tps).
-  Notation do_run := (do_run H cc_ok pol tps).
-  Notation do_step := (do_step H cc_ok pol tps).
-  Notation exec := (exec H cc_ok pol tps).
+  Notation do_run := (do_run H ccinfo_of cc_ok pol tps).
+  Notation do_step := (do_step H ccinfo_of cc_ok pol tps).
+  Notation exec := (exec H ccinfo_of cc_ok pol tps).
   Notation expected := (expected cc_ok).
   Notation fresh_obs := (fresh_obs cc_ok).
   Notation all_fresh := (all_fresh cc_ok).
@@ -82,7 +85,7 @@ Section Proofs.
         bins s bp = Some b -> 0 < b_size b -> eligible bp = true ->
         owner_of s bp = Some sl -> cfiles s sl = Some cf ->
         cmp_mtime (cf_mtime cf) (b_mtime b) = true ->
-        cf_text cf = (Some (cmd, Some (H code cc cmd)), code) ->
+        cf_text cf = (Some (cmd, Some (H code (ccinfo_of cc) cmd)), code) ->
         b_built b = (code, cmd, cc)
   }.
 
@@ -113,13 +116,13 @@ Section Proofs.
   Qed.
 
   Lemma rewrites_of_spec s i s1 cf :
-    compile_code s i = (s1, cf, false) -> rewrites H pol tps s i = true.
+    compile_code s i = (s1, cf, false) -> rewrites H ccinfo_of pol tps s i = true.
   Proof. unfold rewrites; intros ->; reflexivity. Qed.
 
   Lemma compile_code_inv s i s1 cf cg :
     Inv s ->
     (negb (p_le pol) || (p_del_rewrite pol && negb (p_reuse_out pol)) ||
-     negb (rewrites H pol tps s i) || spaced_weak tps s) = true ->
+     negb (rewrites H ccinfo_of pol tps s i) || spaced_weak tps s) = true ->
     compile_code s i = (s1, cf, cg) -> Inv s1.
   Proof.
     intros I Hsp E. pose proof (compile_code_spec _ _ _ _ _ E) as (Ec & El & Eo & _ & _ & D).
@@ -176,15 +179,15 @@ Section Proofs.
   Qed.
 
   Lemma headed_text i :
-    i_nohead i = false -> mk_text i = (Some (i_cmd i, Some (H (i_code i) (i_cc i) (i_cmd i))), i_code i).
+    i_nohead i = false -> mk_text i = (Some (i_cmd i, Some (H (i_code i) (ccinfo_of (i_cc i)) (i_cmd i))), i_code i).
   Proof. unfold Model.mk_text. intros ->. rewrite Hhash. reflexivity. Qed.
 
   Lemma text_determines i code cmd cc :
-    mk_text i = (Some (cmd, Some (H code cc cmd)), code) -> (i_code i, i_cmd i, i_cc i) = (code, cmd, cc).
+    mk_text i = (Some (cmd, Some (H code (ccinfo_of cc) cmd)), code) -> (i_code i, i_cmd i, i_cc i) = (code, cmd, cc).
   Proof.
     unfold Model.mk_text. destruct (i_nohead i); [discriminate|]. rewrite Hhash.
-    intros X; inversion X; subst. match goal with E : H _ _ _ = H _ _ _ |- _ => apply Hinj in E as (? & ? & ?) end.
-    congruence.
+    intros X; inversion X; subst. match goal with E : H _ _ _ = H _ _ _ |- _ => apply Hinj in E as (? & V & ?) end.
+    apply Hvis in V. congruence.
   Qed.
 
   (* owner of the binary path of i, once note_owner has run *)
@@ -211,7 +214,7 @@ Section Proofs.
                     bins s bp = Some b -> 0 < b_size b -> eligible bp = true ->
                     owner_of st' bp = Some sl -> cfiles s sl = Some cf' ->
                     cmp_mtime (cf_mtime cf') (b_mtime b) = true ->
-                    cf_text cf' = (Some (cmd, Some (H code cc cmd)), code) ->
+                    cf_text cf' = (Some (cmd, Some (H code (ccinfo_of cc) cmd)), code) ->
                     b_built b = (code, cmd, cc)).
     { intros st' Eo _ _ bp b sl cf' code cmd cc Hb Hs He Ho. eapply I5; eauto.
       destruct bp as [x|o]; simpl in *; auto. rewrite Eo in Ho.
@@ -252,7 +255,7 @@ Section Proofs.
       rewrite BT.
       assert (NEWKEY : forall st' sz, outowner st' = note_owner s i -> cfiles st' = cfiles s ->
                  forall sl cf' code cmd cc, eligible (bp_of i) = true -> owner_of st' (bp_of i) = Some sl ->
-                   cfiles s sl = Some cf' -> cf_text cf' = (Some (cmd, Some (H code cc cmd)), code) ->
+                   cfiles s sl = Some cf' -> cf_text cf' = (Some (cmd, Some (H code (ccinfo_of cc) cmd)), code) ->
                    b_built (mkBin (cur i) (sec t') sz) = (code, cmd, cc)).
       { intros st' sz Eo _ sl cf' code cmd cc EL Ho Hc Ht. simpl.
         pose proof (owner_after s i Hown EL) as OA.
@@ -306,9 +309,9 @@ Section Proofs.
 
   (* ---------- one invocation ---------- *)
   Lemma inv_ok_parts sp s i :
-    inv_ok H pol tps sp s i = true ->
+    inv_ok H ccinfo_of pol tps sp s i = true ->
     (negb (p_le pol) || (p_del_rewrite pol && negb (p_reuse_out pol)) ||
-     negb (rewrites H pol tps s i) || sp s) = true /\
+     negb (rewrites H ccinfo_of pol tps s i) || sp s) = true /\
     (negb (p_reuse_out pol) || owner_ok s i) = true /\
     (negb (p_nohead_cache pol) || negb (i_nohead i)) = true.
   Proof. unfold inv_ok. rewrite !andb_true_iff. tauto. Qed.
@@ -321,7 +324,7 @@ Section Proofs.
   Qed.
 
   Lemma do_run_inv s i dur kill s2 ob :
-    Inv s -> inv_ok H pol tps (spaced_weak tps) s i = true ->
+    Inv s -> inv_ok H ccinfo_of pol tps (spaced_weak tps) s i = true ->
     do_run s i dur kill = (s2, ob) -> Inv s2 /\ fresh_obs (i, ob) = true.
   Proof.
     intros I OKs. apply inv_ok_parts in OKs as (A & B & C).
@@ -337,7 +340,7 @@ Section Proofs.
   Qed.
 
   Lemma do_step_inv s x s' o :
-    Inv s -> step_ok H pol tps (spaced_weak tps) s x = true -> do_step s x = (s', o) ->
+    Inv s -> step_ok H ccinfo_of pol tps (spaced_weak tps) s x = true -> do_step s x = (s', o) ->
     Inv s' /\ match o with Some io => fresh_obs io = true | None => True end.
   Proof.
     intros I OKs. destruct x as [d|i dur|i dur|i]; simpl.
@@ -355,7 +358,7 @@ Section Proofs.
   Qed.
 
   Lemma exec_fresh_from s h :
-    Inv s -> hyps_ok H cc_ok pol tps (spaced_weak tps) s h = true -> all_fresh (exec s h) = true.
+    Inv s -> hyps_ok H ccinfo_of cc_ok pol tps (spaced_weak tps) s h = true -> all_fresh (exec s h) = true.
   Proof.
     revert s. induction h as [|x r IH]; intros s I OKs; [reflexivity|].
     simpl in OKs. apply andb_true_iff in OKs as [O1 O2].
@@ -365,12 +368,12 @@ Section Proofs.
   Qed.
 
   Theorem fresh_under_hyps h :
-    hyps_ok H cc_ok pol tps (spaced_weak tps) (init tps) h = true -> all_fresh (exec (init tps) h) = true.
+    hyps_ok H ccinfo_of cc_ok pol tps (spaced_weak tps) (init tps) h = true -> all_fresh (exec (init tps) h) = true.
   Proof. apply exec_fresh_from, Inv_init. Qed.
 
   (* the 1-second wording implies the weak one, step by step *)
   Lemma hyps_1s_weak s h :
-    hyps_ok H cc_ok pol tps (spaced_1s tps) s h = true -> hyps_ok H cc_ok pol tps (spaced_weak tps) s h = true.
+    hyps_ok H ccinfo_of cc_ok pol tps (spaced_1s tps) s h = true -> hyps_ok H ccinfo_of cc_ok pol tps (spaced_weak tps) s h = true.
   Proof.
     revert s; induction h as [|x r IH]; intros s; [reflexivity|]. simpl.
     rewrite !andb_true_iff. intros [A B]. split; [|apply IH; exact B].
@@ -380,13 +383,13 @@ Section Proofs.
   Qed.
 
   Theorem fresh_under_hyps_1s h :
-    hyps_ok H cc_ok pol tps (spaced_1s tps) (init tps) h = true -> all_fresh (exec (init tps) h) = true.
+    hyps_ok H ccinfo_of cc_ok pol tps (spaced_1s tps) (init tps) h = true -> all_fresh (exec (init tps) h) = true.
   Proof. intros; apply fresh_under_hyps, hyps_1s_weak; assumption. Qed.
 
   (* with the three switches of a repaired policy the hypotheses hold for every history *)
   Lemma hyps_trivial sp s h :
     p_le pol = false \/ p_del_rewrite pol = true -> p_reuse_out pol = false -> p_nohead_cache pol = false ->
-    hyps_ok H cc_ok pol tps sp s h = true.
+    hyps_ok H ccinfo_of cc_ok pol tps sp s h = true.
   Proof.
     intros A B C. revert s; induction h as [|x r IH]; intros s; [reflexivity|].
     simpl. rewrite IH, andb_true_r.
@@ -402,9 +405,12 @@ End Proofs.
 
 (* ---------- the full-strength statement and its refutations ---------- *)
 
+Definition wid (w : Z) : Z := w.         (* every world change is visible (no header-only edits) *)
+(* full strength over the property's own step kinds: edits of sources and required modules, -D/-P/
+   --cflags/--release, source and compiler switches, -o, --no-cache, --code, interrupted builds *)
 Definition cache_fresh (pol : policy) : Prop :=
-  forall H cc_ok tps, H_inj H -> 0 < tps -> forall h,
-      all_fresh cc_ok (exec H cc_ok pol tps (init tps) h) = true.
+  forall H ccinfo_of cc_ok tps, H_inj H -> (forall a b, ccinfo_of a = ccinfo_of b -> a = b) -> 0 < tps -> forall h,
+      all_fresh cc_ok (exec H ccinfo_of cc_ok pol tps (init tps) h) = true.
 
 Lemma H_id_inj : H_inj H_id.
 Proof. unfold H_inj, H_id. intros. inversion H; auto. Qed.
@@ -426,9 +432,9 @@ Definition w_shared_out : list step :=
 Definition all_ok (b : built) : bool := true.
 
 Lemma refute_with (pol : policy) (h : list step) :
-  all_fresh all_ok (exec H_id all_ok pol 10 (init 10) h) = false -> ~ cache_fresh pol.
+  all_fresh all_ok (exec H_id wid all_ok pol 10 (init 10) h) = false -> ~ cache_fresh pol.
 Proof.
-  intros E F. specialize (F H_id all_ok 10 H_id_inj ltac:(lia) h). congruence.
+  intros E F. specialize (F H_id wid all_ok 10 H_id_inj (fun a b e => e) ltac:(lia) h). congruence.
 Qed.
 
 Theorem refuted_same_second pol : p_le pol = true -> p_del_rewrite pol = false -> ~ cache_fresh pol.
@@ -471,12 +477,28 @@ Proof.
   destruct le, hh, ro, nc, dl; vm_compute; reflexivity.
 Qed.
 
+(* Beyond the property's step kinds: an edit of something the C compiler reads that neither the generated
+   C nor the command nor ccinfo reflects (a header included with cinclude, an extra C file).  With such
+   worlds in the history no policy of this family is fresh: the C file does not change, so the binary
+   built before the header edit is reused. *)
+Definition cache_fresh_any_world (pol : policy) : Prop :=
+  forall H ccinfo_of cc_ok tps, H_inj H -> 0 < tps -> forall h,
+      all_fresh cc_ok (exec H ccinfo_of cc_ok pol tps (init tps) h) = true.
+Definition w_header_edit : list step :=
+  [Run inv0 11; Run (mkInv 0 None 0 0 10 false false) 1].    (* world 0 -> 10: same compiler, edited header; any spacing *)
+Theorem refuted_header_edit pol : ~ cache_fresh_any_world pol.
+Proof.
+  intros F. specialize (F H_id (fun w => w mod 10) all_ok 10 H_id_inj ltac:(lia) w_header_edit).
+  destruct pol as [le hh sz ro nc dl]. revert F.
+  destruct le, hh, sz, ro, nc, dl; vm_compute; discriminate.
+Qed.
+
 (* the repaired policy satisfies the full-strength statement *)
 Theorem cache_fresh_repaired pol :
   p_le pol = false \/ p_del_rewrite pol = true -> p_reuse_out pol = false -> p_nohead_cache pol = false ->
   p_head_hash pol = true -> p_size_chk pol = true -> cache_fresh pol.
 Proof.
-  intros A B C D E H cc_ok tps Hi Tp h. apply fresh_repaired; auto.
+  intros A B C D E H ccinfo_of cc_ok tps Hi Hv Tp h. apply fresh_repaired; auto.
 Qed.
 
 (* ---------- non-vacuity ---------- *)
@@ -492,20 +514,20 @@ Definition h_example : list step :=
    Run (mkInv 0 None 1 1 0 false false) 1; Advance 30; Interrupt (mkInv 0 None 1 1 1 false false) 2;
    Advance 12; Run (mkInv 0 None 1 1 1 false false) 1; Advance 10; Run (mkInv 0 None 1 1 1 false true) 1;
    Advance 10; Run (mkInv 0 (Some 5) 2 1 1 false false) 1; Advance 10; Run (mkInv 0 (Some 5) 2 1 1 false false) 1].
-Example hyps_satisfiable : hyps_ok H_id all_ok pol_now 10 (spaced_1s 10) (init 10) h_example = true.
+Example hyps_satisfiable : hyps_ok H_id wid all_ok pol_now 10 (spaced_1s 10) (init 10) h_example = true.
 Proof. vm_compute. reflexivity. Qed.
 Example example_reuses_binaries :
-  map (fun io => (o_cgen_cached (snd io), o_bin_cached (snd io))) (exec H_id all_ok pol_now 10 (init 10) h_example)
+  map (fun io => (o_cgen_cached (snd io), o_bin_cached (snd io))) (exec H_id wid all_ok pol_now 10 (init 10) h_example)
   = [(false, false); (true, true); (false, false); (false, false); (false, false); (true, false);
      (false, false); (false, false); (true, true)].
 Proof. vm_compute. reflexivity. Qed.
 Example witness_same_second_violates_hyps :
-  hyps_ok H_id all_ok pol_now 10 (spaced_weak 10) (init 10) w_same_second = false.
+  hyps_ok H_id wid all_ok pol_now 10 (spaced_weak 10) (init 10) w_same_second = false.
 Proof. vm_compute. reflexivity. Qed.
 Example fixed_policy_same_second_rebuilds :
-  map (fun io => o_bin_cached (snd io)) (exec H_id all_ok pol_fixed 10 (init 10) w_same_second) = [false; false].
+  map (fun io => o_bin_cached (snd io)) (exec H_id wid all_ok pol_fixed 10 (init 10) w_same_second) = [false; false].
 Proof. vm_compute. reflexivity. Qed.
 Example fixed_del_policy_same_second_rebuilds :
-  map (fun io => o_bin_cached (snd io)) (exec H_id all_ok pol_fixed_del 10 (init 10) w_same_second) = [false; false] /\
-  map (fun io => o_bin_cached (snd io)) (exec H_id all_ok pol_fixed_del 10 (init 10) [Run inv0 1; Run inv0 1]) = [false; true].
+  map (fun io => o_bin_cached (snd io)) (exec H_id wid all_ok pol_fixed_del 10 (init 10) w_same_second) = [false; false] /\
+  map (fun io => o_bin_cached (snd io)) (exec H_id wid all_ok pol_fixed_del 10 (init 10) [Run inv0 1; Run inv0 1]) = [false; true].
 Proof. vm_compute. auto. Qed.
